@@ -141,6 +141,10 @@ def rule_variant(ctx, prop):
             nfn += 1
             E = rt
             en = E.split("::")[-1]
+            # a local helper that *builds* an E from parts (returns E, takes no E) is analysed in place
+            from inline import inlined
+            f = inlined(prog, f, lambda caller, h, t, E=E: strip_ty(h.locals[0]) == E and len(h.blocks) <= 80 and
+                        not any(strip_ty(h.locals[i]) == E for i in range(1, h.argc + 1)), depth=1)
             for V in prog.variants(E, "stylua_lib"):
                 try:
                     res = ParamEnumerator(f, {f"arg:{pi}": V}, max_paths=8000).run()
@@ -415,6 +419,16 @@ def rule_bracket(ctx, prop):
         for f in prog.fns("stylua_lib"):
             if f.path.startswith("verify_ast") or "trivia" in f.path.split("::")[1:2] or f.impl_trait:
                 continue
+            if not any(s["k"] == "assign" and s["rv"]["k"] == "agg" and (s["rv"].get("adt"), s["rv"].get("variant")) in BRACKETED
+                       for b, si_, s in f.stmts()):
+                continue
+            # a private helper that formats the bracketed child (and pads it) is analysed in place
+            from inline import inlined, small_helper
+            f = inlined(prog, f, small_helper(prog, keep=r"::(format_expression|format_expression_internal|hang_expression|"
+                                                          r"format_hanging_expression_|format_type_info|format_type_info_internal|"
+                                                          r"format_hangable_type_info|hang_type_info|is_brackets_string|"
+                                                          r"format_contained_span|format_token_reference|format_symbol)$|"
+                                                          r"^context::|trivia_util::|^formatters::trivia::", max_blocks=60), depth=1)
             sites = []
             for b, si_, s in f.stmts():
                 if s["k"] == "assign" and s["rv"]["k"] == "agg" and (s["rv"].get("adt"), s["rv"].get("variant")) in BRACKETED:
